@@ -19,6 +19,7 @@ func init() {
 			// the bytes do not depend on which codec happened to be built first: an option selects its codec
 			// under its own (type, tag) key
 			ruleOptionScope(c)
+			ruleKeySelf(c)
 			// Marshal(buf, v) = buf + Marshal(nil, v): what an encoder appends is what it sizes
 			ruleSizeLaw(c)
 			ruleFrame(c)
